@@ -39,6 +39,36 @@ def _spox():
     return spox, op, _graph, AttrGraph
 
 
+_OPMODS: list = []
+
+
+def _op_modules() -> list:
+    """All shipped `ai.onnx` constructor modules (v18 / v20 mostly re-export their predecessor)."""
+    if not _OPMODS:
+        import importlib
+
+        for v in (17, 18, 19, 20, 21):
+            try:
+                _OPMODS.append(importlib.import_module(f"spox.opset.ai.onnx.v{v}"))
+            except Exception:  # noqa: BLE001 - a module that is gone is simply not drawn
+                pass
+    return _OPMODS
+
+
+def op_for(op, pal, nid: int, loop: bool = False):
+    """The constructor module of application `nid`: the plain v17 namespace unless the palette asks for
+    mixed modules (bits 3-5 of `pal` set), in which case every application draws its own module - the built
+    model then needs version adaptation of single nodes, in main and inside bodies."""
+    if pal is None or (pal >> 3) & 7 != 7:
+        return op
+    mods = _op_modules()
+    if loop:
+        # Loop-19 / Loop-21 have no `infer_output_types` override: the carried outputs lose their shape
+        # and a main result fed by them is refused for a missing shape (type inference, not scoping)
+        mods = [m for m in mods if "infer_output_types" in vars(getattr(m, "_Loop", object))] or mods[:1]
+    return mods[(pal * 31 + nid * 7 + 5) % len(mods)] if mods else op
+
+
 def _types():
     from spox import Tensor
 
@@ -215,6 +245,7 @@ def make_value(op, _graph, kind: str, ins: list, nid: int, val=None, pal=None) -
     constants, multi-output ops, the ai.onnx.ml domain, user-defined operators. `pal=None`: the
     plain constructors of the namespace `op`."""
     v = 0 if pal is None or kind not in N_VARIANTS else (pal * 7919 + nid * 104729 + 13) % N_VARIANTS[kind]
+    op = op_for(op, pal, nid)
     if kind == "const":
         if v == 1:
             return [op.constant(value_floats=[float(nid)])]
@@ -310,22 +341,24 @@ def realise_lowlevel(ap: dict, name_vars: bool = True, pal=None) -> Real:
                 vs = make_value(op, _graph, k, ins, nid, nd.get("val"), pal)
             elif k == "if":
                 ge, gt = graph(nd["s"][0]), graph(nd["s"][1])
+                opm = op_for(op, pal, nid)
                 vs = list(
-                    op._If(
-                        op._If.Attributes(
+                    opm._If(
+                        opm._If.Attributes(
                             else_branch=AttrGraph(ge, name="else_branch"),
                             then_branch=AttrGraph(gt, name="then_branch"),
                         ),
-                        op._If.Inputs(cond=ins[0]),
+                        opm._If.Inputs(cond=ins[0]),
                         out_variadic=len(ge.requested_results),
                     ).outputs.outputs
                 )
             elif k == "loop":
                 gb = graph(nd["s"][0])
+                opm = op_for(op, pal, nid, loop=True)
                 vs = list(
-                    op._Loop(
-                        op._Loop.Attributes(body=AttrGraph(gb, name="body")),
-                        op._Loop.Inputs(
+                    opm._Loop(
+                        opm._Loop.Attributes(body=AttrGraph(gb, name="body")),
+                        opm._Loop.Inputs(
                             M=ins[0] if nd.get("m") else None,
                             cond=ins[int(bool(nd.get("m")))] if nd.get("c") else None,
                             v_initial=ins[int(bool(nd.get("m"))) + int(bool(nd.get("c"))):],
@@ -351,7 +384,7 @@ class ScriptError(Exception):
     pass
 
 
-def realise_script(script: dict, name_vars: bool = True, pal=None) -> Real:
+def realise_script(script: dict, name_vars: bool = True, pal=None, name_offset: int = 0) -> Real:
     """Run a script with `if_` / `loop` callbacks. Script:
         {"main": block, "res": [refs]}
         block = [stmt...];  stmt = ["val", kind, [refs]]
@@ -373,7 +406,9 @@ def realise_script(script: dict, name_vars: bool = True, pal=None) -> Real:
         if node in R.node_id:
             R.merged.append((R.node_id[node], nid))
         if name_vars:
-            _name_outputs(node, nid, is_arg)
+            # `name_offset`: the same program under other value names (only for programs that are built
+            # to leave traces in the process, never judged)
+            _name_outputs(node, nid + name_offset, is_arg)
         R.node_id[node] = nid
         R.nodes.append(node)
         box.append(list(node.outputs.get_vars().values())[0])
@@ -412,7 +447,7 @@ def realise_script(script: dict, name_vars: bool = True, pal=None) -> Real:
 
                     return fn
 
-                outs = op.if_(box[cref], else_branch=mk(eblock, eres), then_branch=mk(tblock, tres))
+                outs = op_for(op, pal, len(box)).if_(box[cref], else_branch=mk(eblock, eres), then_branch=mk(tblock, tres))
                 node = outs[0]._op
                 ge, gt = node.attrs.else_branch.value, node.attrs.then_branch.value
                 s0 = reg_graph(ge, [], eres)
@@ -432,7 +467,7 @@ def realise_script(script: dict, name_vars: bool = True, pal=None) -> Real:
                     run_block(bblock)
                     return [box[r] for r in bres]
 
-                outs = op.loop(
+                outs = op_for(op, pal, len(box), loop=True).loop(
                     box[mref] if mref is not None else None,
                     box[cref] if cref is not None else None,
                     v_initial=[box[r] for r in init],
@@ -537,6 +572,20 @@ def trace_from_proto(ap: dict, model) -> list:
     return trace
 
 
+def placed_from_trace(trace: list) -> list:
+    """[vertex, graph] for every `emit` event: the innermost graph open at the event (the counterpart of
+    `BuildAlg.placed`, computed on the trace read from the real ModelProto)."""
+    out, st = [], []
+    for k, x in trace:
+        if k == "enter":
+            st.append(x)
+        elif k == "leave":
+            st.pop()
+        elif k == "emit":
+            out.append([x, st[-1] if st else 0])
+    return out
+
+
 def drop_initializers(ap: dict, trace: list) -> list:
     """Initializers are emitted as `GraphProto.initializer` entries, not as NodeProtos: the trace read
     from the proto cannot order them, so they are left out of the trace comparison (their position
@@ -610,8 +659,10 @@ def observe_internals(R: Real) -> dict:
     return out
 
 
-def observe_public(R: Real) -> dict:
-    """The same program through the public `spox.build(inputs, outputs)` (fresh Builder inside)."""
+def observe_public(R: Real, drop: bool = False) -> dict:
+    """The same program through the public `spox.build(inputs, outputs)` (fresh Builder inside);
+    `drop`: with `drop_unused_inputs=True` (the main graph then has no requested argument list and
+    takes what the traversal finds, at any depth)."""
     import spox
 
     out: dict[str, Any] = {"model_err": None}
@@ -621,13 +672,63 @@ def observe_public(R: Real) -> dict:
     with warnings.catch_warnings():
         warnings.simplefilter("ignore")
         try:
-            out["_model"] = spox.build(ins, outs)
+            out["_model"] = spox.build(ins, outs, drop_unused_inputs=True) if drop else spox.build(ins, outs)
             out["ok"] = True
         except Exception as e:  # noqa: BLE001
             out["ok"] = False
             out["err"] = err_class(e)
             out["_model"] = None
     return out
+
+
+def kept_inputs(ap: dict, model) -> tuple[list, list]:
+    """(inputs of the model, the main arguments some requested output depends on - in the given order):
+    what `drop_unused_inputs=True` must keep."""
+    got = []
+    for vi in model.graph.input:
+        m = _ANAME.match(vi.name)
+        got.append(int(m.group(1)) if m else vi.name)
+    reach = ap_reachable(ap)
+    want = [a for a in (ap["graphs"][0]["args"] or []) if a in reach]
+    return got, want
+
+
+class ambient:
+    """Run a block under ambient scoped settings the property's verdicts must not depend on:
+    value-propagation backend, type-warning level, operator overloading. Settings that do not exist
+    any more are skipped (nothing here is needed by the oracle)."""
+
+    def __init__(self, which):
+        self.which = which
+        self.stack = None
+
+    def __enter__(self):
+        import contextlib
+
+        self.stack = contextlib.ExitStack()
+        if self.which is None:
+            return self
+        w = int(self.which)
+        try:
+            import spox._future as fut
+            from spox._value_prop import ValuePropBackend
+
+            backends = [b for b in (getattr(ValuePropBackend, n, None) for n in ("NONE", "REFERENCE")) if b is not None]  # (onnxruntime inside forked workers is a deadlock trap)
+            if backends:
+                self.stack.enter_context(fut.value_prop_backend(backends[w % len(backends)]))
+            levels = list(fut.TypeWarningLevel)
+            self.stack.enter_context(fut.type_warning_level(levels[(w // 2) % len(levels)]))
+            if (w // 12) % 2:
+                import spox.opset.ai.onnx.v17 as op17
+
+                self.stack.enter_context(fut.operator_overloading(op17, type_promotion=bool(w & 32), constant_promotion=bool(w & 64)))
+        except Exception:  # noqa: BLE001 - the setting is gone / renamed: run without it
+            pass
+        return self
+
+    def __exit__(self, *exc):
+        self.stack.close()
+        return False
 
 
 def model_verdict(m: dict) -> str:
